@@ -1,6 +1,901 @@
-//! C10 — stub (to be implemented).
+//! C10 — BCF typed encoding round-trips every value and carries the same content as VCF.
+//!
+//! For every generated header (BCF sub-model, with and without explicit `IDX=` assignments) and
+//! every record consistent with it, written by `bcf::io::Writer`:
+//!  * the raw bytes are decoded by an independent reader written from the BCF 2.2 specification
+//!    (`raw.rs`: typed descriptors, overflow lengths, integer width sentinels, end-of-vector padding,
+//!    genotype encoding, dictionary indices) and compared with the generator's description;
+//!  * `bcf::io::Reader::read_record_buf` must give the description back (floats by bit pattern) and
+//!    its VCF text rendering must equal the rendering of the original;
+//!  * every accessor of the lazy `bcf::Record` is compared with the eager record;
+//!  * the dictionary a reader derives from the written header must be the one the writer encoded
+//!    the records with.
+//! A rejected record is counted per reason; an accepted one must never read back differently.
+
+mod raw;
+
+use std::collections::BTreeSet;
+
+use genvcf::{
+    ContigDef, FieldDef, FilterDef, GtAllele, HeaderDesc, HeaderOpts, IdxMode, Model, Num, RecDesc, RecOpts, Tol, Ty, Val, canon_first_phasing, diff_headers, diff_records, features, gen_header, gen_record,
+    header_from_text, io_err_class, rec_desc_of_buf, rec_desc_of_record, series_of_record, to_noodles_header, to_record_buf, to_vcf_line,
+};
+use noodles_bcf as bcf;
+use noodles_vcf as vcf;
+use raw::Dict;
+use serde_json::json;
+use vcf::variant::io::Write as _;
+use vcore::{CaseOut, Ctx, Report, Rng, guard, report::hex, rng::fnv1a, run_cases};
+
+#[derive(Clone, Debug)]
+struct Case {
+    kind: &'static str,
+    seed: u64,
+    n: usize,
+    fileformat: Option<(u32, u32)>,
+    idx: IdxMode,
+}
+
+fn case_json(c: &Case) -> serde_json::Value {
+    json!({"kind": c.kind, "seed": c.seed, "n": c.n, "fileformat": c.fileformat.map(|f| format!("{}.{}", f.0, f.1)), "idx": format!("{:?}", c.idx)})
+}
+
+fn lossy(b: &[u8]) -> String {
+    let s = String::from_utf8_lossy(b);
+    let s = s.trim_end_matches('\n');
+    let mut t: String = s.chars().take(500).collect();
+    if t.len() < s.len() {
+        t.push('…');
+    }
+    t
+}
+
+fn aspect_class(d: &[(String, String)]) -> String {
+    if d.iter().all(|(a, _)| a.ends_with(".IDX")) { "IDX".into() } else { d.iter().find(|(a, _)| !a.ends_with(".IDX")).map(|(a, _)| a.clone()).unwrap_or_default() }
+}
+
+/// Data-free shape of FORMAT field `fi` of a record.
+fn field_shape(r: &RecDesc, h: &HeaderDesc, fi: usize) -> String {
+    let Some(k) = r.format.get(fi) else { return "no-such-field".into() };
+    let col: Vec<Option<&Val>> = r.samples.iter().map(|row| row.get(fi).and_then(|v| v.as_ref())).collect();
+    if k == "GT" {
+        let pl: Vec<usize> = col.iter().filter_map(|v| if let Some(Val::Gt(g)) = v { Some(g.len()) } else { None }).collect();
+        return if pl.iter().any(|p| *p != pl[0]) { "GT:mixed-ploidy".into() } else { "GT:uniform-ploidy".into() };
+    }
+    let Some(d) = h.format(k) else { return "undeclared".into() };
+    let t = format!("{}{}", d.ty.text(), if d.num.is_scalar() { "" } else { "[]" });
+    if col.iter().all(|v| v.is_none()) {
+        return format!("{t}:all-samples-missing");
+    }
+    let lens: Vec<usize> = col.iter().filter_map(|v| v.and_then(|v| v.array_len())).collect();
+    if lens.iter().any(|l| *l != lens[0]) || (col.iter().any(|v| v.is_none()) && lens.iter().any(|l| *l > 1)) {
+        return format!("{t}:ragged");
+    }
+    format!("{t}:uniform")
+}
+
+/// Which FORMAT field a broken per-sample block is blamed on (see `raw::blame`).
+fn blame_shape(indiv: &[u8], r: &RecDesc, h: &HeaderDesc, dict: &Dict) -> String {
+    let keys: Vec<usize> = r.format.iter().map(|k| dict.strings.iter().position(|e| e.as_deref() == Some(k.as_str())).unwrap_or(usize::MAX)).collect();
+    let lens: Vec<usize> = r
+        .format
+        .iter()
+        .enumerate()
+        .map(|(fi, k)| {
+            let is_text = h.format(k).map(|d| matches!(d.ty, Ty::String | Ty::Character)).unwrap_or(false) && k != "GT";
+            if is_text {
+                return usize::MAX;
+            }
+            r.samples
+                .iter()
+                .map(|row| match row.get(fi).and_then(|v| v.as_ref()) {
+                    Some(Val::Gt(g)) => g.len(),
+                    Some(v) => v.array_len().unwrap_or(1),
+                    None => 1,
+                })
+                .max()
+                .unwrap_or(1)
+                .max(1)
+        })
+        .collect();
+    match raw::blame(indiv, r.samples.len(), &keys, &lens) {
+        Some(fi) => field_shape(r, h, fi),
+        None => "layout-as-described".into(),
+    }
+}
+
+struct HeaderCtx {
+    header: vcf::Header,
+    /// header to read records with (the one read back, or patched with the writer's dictionary)
+    read_header: vcf::Header,
+    dict: Dict,
+    file_prefix: Vec<u8>,
+}
+
+fn check_header(hd: &HeaderDesc, out: &mut CaseOut) -> Option<HeaderCtx> {
+    out.count("headers", 1);
+    let header = match to_noodles_header(hd) {
+        Ok(h) => h,
+        Err(e) => {
+            out.inconclusive.push(format!("generator produced a header the builders refuse: {e}"));
+            return None;
+        }
+    };
+    let dict = match Dict::of(hd) {
+        Ok(d) => d,
+        Err(e) => {
+            out.inconclusive.push(format!("generator produced an inconsistent IDX assignment: {e}"));
+            return None;
+        }
+    };
+    let written = guard::catch(|| {
+        let mut w = bcf::io::Writer::from(Vec::new());
+        w.write_header(&header).map(|_| w.into_inner())
+    });
+    let bytes = match written {
+        Err(p) => {
+            out.violation(format!("panic:{}", p.sig), format!("bcf write_header panicked: {}", p.message));
+            return None;
+        }
+        Ok(Err(e)) => {
+            out.count(&format!("header_rejected[{}]", io_err_class(&e)), 1);
+            return None;
+        }
+        Ok(Ok(b)) => b,
+    };
+    out.count("headers_accepted", 1);
+    out.count(&format!("headers_idx[{}]", if hd.has_explicit_idx() { "explicit" } else { "none" }), 1);
+    // the embedded header text, read independently
+    let mut dict_broken = false;
+    match raw::split_file(&bytes) {
+        Err(e) => {
+            out.violation(format!("bcf-header-block-malformed:{}", e.class), e.detail);
+            return None;
+        }
+        Ok((text, off)) => {
+            if off != bytes.len() {
+                out.violation("bcf-header-block-malformed:trailing-bytes", format!("{} bytes after the header block", bytes.len() - off));
+            }
+            match header_from_text(&text) {
+                Err(e) => out.violation("bcf-header-text:unreadable-by-independent-splitter", format!("{e}\n{text}")),
+                Ok(got) => {
+                    let d = diff_headers(hd, &got);
+                    if !d.is_empty() {
+                        out.violation(format!("bcf-header-text-ne-desc:{}", aspect_class(&d)), format!("the header text embedded in the BCF file does not carry the description: {:?}", &d[..d.len().min(4)]));
+                    }
+                    // the dictionary any reader derives from that text
+                    match Dict::of(&got) {
+                        Ok(d2) if d2 == dict => {}
+                        Ok(d2) => {
+                            dict_broken = true;
+                            let first = dict.strings.iter().zip(&d2.strings).position(|(a, b)| a != b);
+                            out.violation(
+                                "bcf-header-dictionary-ne-writer-dictionary:IDX-not-written",
+                                format!(
+                                    "records are encoded with the dictionary of the in-memory header (IDX honoured) but the written header text yields another one; first differing string index {first:?}: writer {:?} vs text {:?}; contigs writer {:?} vs text {:?}",
+                                    first.and_then(|i| dict.strings.get(i)),
+                                    first.and_then(|i| d2.strings.get(i)),
+                                    dict.contigs,
+                                    d2.contigs
+                                ),
+                            );
+                        }
+                        Err(e) => {
+                            dict_broken = true;
+                            out.violation("bcf-header-dictionary:text-inconsistent", e);
+                        }
+                    }
+                }
+            }
+        }
+    }
+    // noodles' reader
+    let read = guard::catch(|| bcf::io::Reader::from(&bytes[..]).read_header());
+    let mut read_header = match read {
+        Err(p) => {
+            out.violation(format!("panic:{}", p.sig), format!("bcf read_header panicked: {}", p.message));
+            return None;
+        }
+        Ok(Err(e)) => {
+            out.violation(format!("bcf-header-reader-rejects-writer-output:{}", io_err_class(&e)), format!("{e:?}"));
+            return None;
+        }
+        Ok(Ok(h)) => h,
+    };
+    // its string maps against the expected dictionary
+    let mut maps_ok = true;
+    for (i, e) in dict.strings.iter().enumerate() {
+        if read_header.string_maps().strings().get_index(i) != e.as_deref() {
+            maps_ok = false;
+        }
+    }
+    for (i, e) in dict.contigs.iter().enumerate() {
+        if read_header.string_maps().contigs().get_index(i) != e.as_deref() {
+            maps_ok = false;
+        }
+    }
+    if !maps_ok {
+        if !dict_broken {
+            out.violation("bcf-reader-string-maps-ne-dictionary", "the string maps bcf::io::Reader::read_header builds differ from the dictionary of the header text");
+        }
+        // keep going with the dictionary the writer used, so that the record codec is still observed
+        match vcf::header::StringMaps::try_from(&header) {
+            Ok(m) => *read_header.string_maps_mut() = m,
+            Err(_) => return None,
+        }
+        out.count("cases_read_with_patched_string_maps", 1);
+    }
+    Some(HeaderCtx { header, read_header, dict, file_prefix: bytes })
+}
+
+fn check_record(hd: &HeaderDesc, hc: &HeaderCtx, writer: &mut bcf::io::Writer<Vec<u8>>, rd: &RecDesc, out: &mut CaseOut) -> Option<(Vec<u8>, vcf::variant::RecordBuf)> {
+    let ff = hd.fileformat;
+    out.count("records", 1);
+    // BCF has no notion of dropped trailing values: every row carries every key
+    let mut padded = rd.clone();
+    for row in padded.samples.iter_mut() {
+        row.resize(padded.format.len(), None);
+    }
+    let rd = &padded;
+    let buf = to_record_buf(rd);
+    let before = writer.get_ref().len();
+    let res = guard::catch(|| writer.write_variant_record(&hc.header, &buf));
+    let text = to_vcf_line(rd, hd);
+    match res {
+        Err(p) => {
+            out.violation(format!("panic:{}", p.sig), format!("bcf write_variant_record panicked: {} on {}", p.message, lossy(&text)));
+            writer.get_mut().truncate(before);
+            return None;
+        }
+        Ok(Err(e)) => {
+            out.count(&format!("rejected[{}]", io_err_class(&e)), 1);
+            if writer.get_ref().len() != before {
+                out.violation("rejected-record-left-bytes", format!("the writer returned {e} after writing {} bytes", writer.get_ref().len() - before));
+                writer.get_mut().truncate(before);
+            }
+            return None;
+        }
+        Ok(Ok(())) => {}
+    }
+    out.count("records_accepted", 1);
+    let bytes = writer.get_ref()[before..].to_vec();
+    let ctxs = format!("record (as VCF): {}\nfileformat {}.{}; BCF bytes: {}", lossy(&text), ff.0, ff.1, hex(&bytes[..bytes.len().min(160)]));
+    let canon = |mut r: RecDesc| -> RecDesc {
+        if ff < (4, 4) {
+            canon_first_phasing(&mut r);
+        }
+        r
+    };
+    let exp = canon(rd.clone());
+    let colkey = |d: &genvcf::FieldDiff| format!("{}|{}", d.column, d.key);
+    let mut bad: BTreeSet<String> = BTreeSet::new();
+
+    // framing
+    if bytes.len() < 8 {
+        out.violation("raw-malformed:no-length-prefix", ctxs);
+        return None;
+    }
+    let ls = u32::from_le_bytes(bytes[0..4].try_into().unwrap()) as usize;
+    let li = u32::from_le_bytes(bytes[4..8].try_into().unwrap()) as usize;
+    if 8 + ls + li != bytes.len() {
+        out.violation("raw-malformed:length-prefix", format!("l_shared {ls} + l_indiv {li} + 8 != {} bytes written\n{ctxs}", bytes.len()));
+        return None;
+    }
+    // independent decode
+    let mut raw_broken = false;
+    match raw::decode(&bytes[8..8 + ls], &bytes[8 + ls..], hd, &hc.dict) {
+        Err(e) => {
+            raw_broken = true;
+            let in_indiv = e.class.starts_with("indiv:");
+            if in_indiv {
+                // name the field whose bytes do not line up with the layout the description demands
+                let shape = blame_shape(&bytes[8 + ls..], &exp, hd, &hc.dict);
+                out.violation(format!("raw-malformed-per-sample-block:{shape}"), format!("independent BCF reader: {} ({})\n{ctxs}", e.detail, e.class));
+            } else {
+                out.violation(format!("raw-malformed:{}", e.class), format!("independent BCF reader: {}\n{ctxs}", e.detail));
+            }
+        }
+        Ok((got, info)) => {
+            out.count("records_decoded_independently", 1);
+            for d in diff_records(&exp, &canon(got), &Tol::BITS) {
+                out.violation(format!("raw-ne-desc:{}:{}", d.column, d.class), format!("independent BCF reader, {} {}: {}\n{ctxs}", d.column, d.key, d.detail));
+                bad.insert(colkey(&d));
+            }
+            if info.n_sample != hd.samples.len() {
+                out.violation("raw-ne-desc:n_sample", format!("n_sample {} vs {} samples in the header\n{ctxs}", info.n_sample, hd.samples.len()));
+            }
+            for (what, ty, lo, hi) in &info.int_widths {
+                if !raw::fits(*ty, *lo, *hi) {
+                    out.violation(format!("raw-width-collides-with-reserved-codes:{what}:int{}", 8 << (ty - 1)), format!("values {lo}..={hi} stored as int{}\n{ctxs}", 8 << (ty - 1)));
+                }
+                let edge = |v: i32| matches!(v, -121 | -120 | 127 | 128 | -32761 | -32760 | 32767 | 32768) || v == i32::MIN + 8 || v == i32::MAX;
+                if edge(*lo) || edge(*hi) {
+                    out.count(&format!("width_at_boundary[{what}|int{}]", 8 << (ty - 1)), 1);
+                }
+                out.count(&format!("int_width[{what}|int{}]", 8 << (ty - 1)), 1);
+            }
+            // per-sample vectors: length = longest vector, shorter ones padded
+            for (k, _ty, len) in &info.fmt_layout {
+                if let Some(fi) = exp.format_index(k) {
+                    let lens: Vec<usize> = exp.samples.iter().map(|row| match row.get(fi).and_then(|v| v.as_ref()) {
+                        Some(Val::Gt(g)) => g.len(),
+                        Some(v) => v.array_len().unwrap_or(1),
+                        None => 1,
+                    }).collect();
+                    if lens.iter().any(|l| *l != lens[0]) {
+                        out.count("ragged_vectors_checked", 1);
+                    }
+                    let _ = len;
+                }
+            }
+        }
+    }
+
+    // eager read
+    let eager = guard::catch(|| {
+        let mut r = bcf::io::Reader::from(&bytes[..]);
+        let mut b = vcf::variant::RecordBuf::default();
+        r.read_record_buf(&hc.read_header, &mut b).map(|n| (n, b))
+    });
+    let eager_buf = match eager {
+        Err(p) => {
+            if !raw_broken {
+                out.violation(format!("panic:{}", p.sig), format!("bcf read_record_buf panicked: {}\n{ctxs}", p.message));
+            } else {
+                out.count("eager_read_panics_on_malformed_writer_output", 1);
+            }
+            None
+        }
+        Ok(Err(e)) => {
+            if !raw_broken {
+                out.violation(format!("eager-read-rejects-writer-output:{}", io_err_class(&e)), format!("{e:?}\n{ctxs}"));
+            }
+            None
+        }
+        Ok(Ok((_, b))) => Some(b),
+    };
+    let eager_desc = eager_buf.as_ref().map(|b| canon(rec_desc_of_buf(b)));
+    if let (Some(got), false) = (&eager_desc, raw_broken) {
+        let diffs = diff_records(&exp, got, &Tol::BITS);
+        let clean = diffs.is_empty();
+        for d in diffs {
+            if !bad.contains(&colkey(&d)) {
+                out.violation(format!("eager-ne-desc:{}:{}", d.column, d.class), format!("{} {}: {}\n{ctxs}", d.column, d.key, d.detail));
+                bad.insert(colkey(&d));
+            }
+        }
+        // VCF rendering of both
+        if clean {
+            let render = |b: &vcf::variant::RecordBuf| {
+                guard::catch(|| {
+                    let mut w = vcf::io::Writer::new(Vec::new());
+                    w.write_variant_record(&hc.header, b).map(|_| w.into_inner())
+                })
+            };
+            match (render(&buf), render(eager_buf.as_ref().unwrap())) {
+                (Ok(Ok(a)), Ok(Ok(b))) => {
+                    out.count("vcf_renderings_compared", 1);
+                    if a != b {
+                        let col = a.split(|&c| c == b'\t').zip(b.split(|&c| c == b'\t')).position(|(x, y)| x != y).unwrap_or(99);
+                        let col = ["CHROM", "POS", "ID", "REF", "ALT", "QUAL", "FILTER", "INFO", "FORMAT"].get(col).copied().unwrap_or("sample");
+                        out.violation(format!("vcf-rendering-differs:{col}"), format!("original: {}\nread back: {}\n{ctxs}", lossy(&a), lossy(&b)));
+                    }
+                }
+                (Ok(Err(_)), Ok(Err(_))) => out.count("vcf_rendering_rejected_by_vcf_writer", 1),
+                (Ok(Err(e)), _) | (_, Ok(Err(e))) => out.violation(format!("vcf-rendering-one-side-rejected:{}", io_err_class(&e)), format!("{e:?}\n{ctxs}")),
+                (Err(p), _) | (_, Err(p)) => out.violation(format!("panic:{}", p.sig), format!("vcf writer panicked: {}\n{ctxs}", p.message)),
+            }
+        }
+    }
+
+    // lazy record
+    if !raw_broken {
+        let lazy = guard::catch(|| {
+            let mut r = bcf::io::Reader::from(&bytes[..]);
+            let mut rec = bcf::Record::default();
+            r.read_record(&mut rec).map(|n| (n, rec))
+        });
+        match lazy {
+            Err(p) => out.violation(format!("panic:{}", p.sig), format!("bcf read_record panicked: {}\n{ctxs}", p.message)),
+            Ok(Err(e)) => out.violation(format!("lazy-read-rejects-writer-output:{}", io_err_class(&e)), format!("{e:?}\n{ctxs}")),
+            Ok(Ok((_, rec))) => {
+                let (reference, refname) = match &eager_desc {
+                    Some(e) => (e.clone(), "eager"),
+                    None => (exp.clone(), "desc"),
+                };
+                match guard::catch(|| rec_desc_of_record(&hc.read_header, &rec)) {
+                    Err(p) => out.violation(format!("panic:{}", p.sig), format!("a lazy bcf::Record accessor panicked: {}\n{ctxs}", p.message)),
+                    Ok(Err(e)) => out.violation(format!("lazy-accessor-error:{}", io_err_class(&e)), format!("{e:?}\n{ctxs}")),
+                    Ok(Ok(v)) => {
+                        let v = canon(v);
+                        out.count("lazy_records_read_through_every_accessor", 1);
+                        for d in diff_records(&reference, &v, &Tol::BITS) {
+                            if refname == "eager" || !bad.contains(&colkey(&d)) {
+                                out.violation(format!("lazy-ne-{refname}:{}:{}", d.column, d.class), format!("{} {}: {}\n{ctxs}", d.column, d.key, d.detail));
+                            }
+                        }
+                        match guard::catch(|| series_of_record(&hc.read_header, &rec)) {
+                            Err(p) => out.violation(format!("panic:{}", p.sig), format!("a lazy series accessor panicked: {}\n{ctxs}", p.message)),
+                            Ok(Err(e)) => out.violation(format!("lazy-series-error:{}", io_err_class(&e)), format!("{e:?}\n{ctxs}")),
+                            Ok(Ok(series)) => {
+                                let names: Vec<&String> = series.iter().map(|s| &s.0).collect();
+                                if names != v.format.iter().collect::<Vec<_>>() {
+                                    out.violation("lazy-series-ne-rows:names", format!("{names:?} vs {:?}\n{ctxs}", v.format));
+                                } else {
+                                    for (fi, (k, col)) in series.iter().enumerate() {
+                                        for (si, got) in col.iter().enumerate() {
+                                            let mut e = v.samples.get(si).and_then(|r| r.get(fi)).cloned().unwrap_or(None);
+                                            let mut g = got.clone();
+                                            if ff < (4, 4) {
+                                                for x in [&mut e, &mut g] {
+                                                    if let Some(Val::Gt(gt)) = x {
+                                                        let imp = genvcf::implied_first_phasing(gt);
+                                                        gt[0].phased = imp;
+                                                    }
+                                                }
+                                            }
+                                            if !genvcf::opt_val_eq(&e, &g, &Tol::BITS) {
+                                                out.violation(format!("lazy-series-ne-rows:{}", genvcf::classify(&e, &g)), format!("series {k} sample {si}: {} vs {}\n{ctxs}", genvcf::show_val(&e), genvcf::show_val(&g)));
+                                            }
+                                        }
+                                    }
+                                }
+                            }
+                        }
+                        if let Err(p) = guard::catch(|| lazy_inherent(hc, &rec, &v, out, &ctxs)) {
+                            out.violation(format!("panic:{}", p.sig), format!("an inherent bcf::Record accessor panicked: {}\n{ctxs}", p.message));
+                        }
+                    }
+                }
+            }
+        }
+    }
+    for (k, _) in &rd.info {
+        if let Some(d) = hd.info(k) {
+            out.count(&format!("info[{}x{}]", d.num.class(), d.ty.text()), 1);
+        }
+    }
+    for k in &rd.format {
+        if let Some(d) = hd.format(k) {
+            out.count(&format!("format[{}x{}]", d.num.class(), d.ty.text()), 1);
+        }
+    }
+    for row in &rd.samples {
+        for v in row.iter().flatten() {
+            if let Val::Gt(g) = v {
+                out.count(&format!("gt_ploidy[{}]", g.len()), 1);
+            }
+        }
+    }
+    if eager_desc.is_some() && !raw_broken { Some((bytes, buf)) } else { None }
+}
+
+/// Inherent accessors of the lazy `bcf::Record` that the trait view does not go through.
+fn lazy_inherent(hc: &HeaderCtx, rec: &bcf::Record, view: &RecDesc, out: &mut CaseOut, ctxs: &str) {
+    use vcf::variant::record::{AlternateBases as _, Filters as _, Ids as _, Info as _, ReferenceBases as _, Samples as _};
+    let h = &hc.read_header;
+    macro_rules! bad {
+        ($what:expr, $detail:expr) => {
+            out.violation(format!("lazy-inherent-accessor-ne-trait-view:{}", $what), format!("{}\n{ctxs}", $detail))
+        };
+    }
+    match rec.reference_sequence_id() {
+        Ok(i) => {
+            if hc.dict.contigs.get(i).and_then(|e| e.as_deref()) != Some(view.chrom.as_str()) {
+                bad!("reference_sequence_id", format!("{i} is not {:?}", view.chrom));
+            }
+        }
+        Err(e) => bad!("reference_sequence_id", e),
+    }
+    match rec.reference_sequence_name(h.string_maps()) {
+        Ok(n) if n == view.chrom => {}
+        other => bad!("reference_sequence_name", format!("{other:?} vs {:?}", view.chrom)),
+    }
+    match rec.quality_score() {
+        Ok(q) if q.map(f32::to_bits) == view.qual => {}
+        other => bad!("quality_score", format!("{other:?} vs {:?}", view.qual)),
+    }
+    if rec.ids().len() != view.ids.len() || rec.ids().is_empty() != view.ids.is_empty() {
+        bad!("ids.len", format!("{} vs {}", rec.ids().len(), view.ids.len()));
+    }
+    if rec.reference_bases().len() != view.reference.len() || rec.reference_bases().is_empty() {
+        bad!("reference_bases.len", format!("{} vs {}", rec.reference_bases().len(), view.reference.len()));
+    }
+    if rec.alternate_bases().len() != view.alts.len() || rec.alternate_bases().is_empty() != view.alts.is_empty() {
+        bad!("alternate_bases.len", format!("{} vs {}", rec.alternate_bases().len(), view.alts.len()));
+    }
+    if rec.filters().len() != view.filters.len() || rec.filters().is_empty() != view.filters.is_empty() {
+        bad!("filters.len", format!("{} vs {}", rec.filters().len(), view.filters.len()));
+    }
+    let info = rec.info();
+    if info.len() != view.info.len() || vcf::variant::record::Info::is_empty(&info) != view.info.is_empty() {
+        bad!("info.len", format!("{} vs {}", info.len(), view.info.len()));
+    }
+    for (k, v) in &view.info {
+        match info.get(h, k) {
+            None => bad!("info.get", format!("get({k:?}) = None")),
+            Some(Err(e)) => bad!("info.get", format!("get({k:?}) = Err({e})")),
+            Some(Ok(got)) => {
+                if got.is_some() != v.is_some() {
+                    bad!("info.get", format!("get({k:?}) presence {} vs iteration {}", got.is_some(), v.is_some()));
+                }
+            }
+        }
+    }
+    if info.get(h, "no_such_key_").is_some() {
+        bad!("info.get", "get(absent key) is Some");
+    }
+    match rec.samples() {
+        Err(e) => bad!("samples", e),
+        Ok(samples) => {
+            if samples.len() != view.samples.len() || samples.format_count() != view.format.len() {
+                bad!("samples.len/format_count", format!("{}x{} vs {}x{}", samples.len(), samples.format_count(), view.samples.len(), view.format.len()));
+            }
+            for (fi, k) in view.format.iter().enumerate() {
+                match samples.select(h, k) {
+                    None => bad!("samples.select", format!("select({k:?}) = None")),
+                    Some(Err(e)) => bad!("samples.select", format!("select({k:?}) = Err({e})")),
+                    Some(Ok(series)) => {
+                        if series.name(h).ok() != Some(k.as_str()) {
+                            bad!("series.name", format!("{:?} vs {k:?}", series.name(h).ok()));
+                        }
+                        for (si, row) in view.samples.iter().enumerate() {
+                            let exp = row.get(fi).cloned().unwrap_or(None);
+                            let got = match series.get(h, si) {
+                                None => {
+                                    bad!("series.get", format!("get({si}) = None for key {k:?}"));
+                                    continue;
+                                }
+                                Some(None) => None,
+                                Some(Some(Err(e))) => {
+                                    bad!("series.get", format!("get({si}) = Err({e})"));
+                                    continue;
+                                }
+                                Some(Some(Ok(v))) => match genvcf::conv::val_of_series_ref(v) {
+                                    Ok(v) => Some(v),
+                                    Err(e) => {
+                                        bad!("series.get", format!("get({si}) unreadable: {e}"));
+                                        continue;
+                                    }
+                                },
+                            };
+                            let mut e2 = exp.clone();
+                            let mut g2 = got.clone();
+                            for x in [&mut e2, &mut g2] {
+                                if let Some(Val::Gt(gt)) = x {
+                                    if h.file_format() < vcf::header::FileFormat::new(4, 4) {
+                                        let imp = genvcf::implied_first_phasing(gt);
+                                        gt[0].phased = imp;
+                                    }
+                                }
+                            }
+                            if !genvcf::opt_val_eq(&e2, &g2, &Tol::BITS) {
+                                bad!("series.get", format!("key {k:?} sample {si}: {} vs {}", genvcf::show_val(&exp), genvcf::show_val(&got)));
+                            }
+                        }
+                        if series.get(h, view.samples.len()).is_some() {
+                            bad!("series.get", "get(sample count) is Some");
+                        }
+                    }
+                }
+            }
+            if samples.select(h, "no_such_key_").is_some() {
+                bad!("samples.select", "select(absent key) is Some");
+            }
+        }
+    }
+}
+
+/// header + accepted records as one BCF file, plain and through BGZF.
+fn file_pass(hc: &HeaderCtx, recs: &[(Vec<u8>, vcf::variant::RecordBuf)], out: &mut CaseOut) {
+    let mut file = hc.file_prefix.clone();
+    for r in recs {
+        file.extend_from_slice(&r.0);
+    }
+    let plain = guard::catch(|| -> std::io::Result<usize> {
+        let mut rd = bcf::io::Reader::from(&file[..]);
+        let _ = rd.read_header()?;
+        let mut n = 0;
+        for r in rd.record_bufs(&hc.read_header) {
+            r?;
+            n += 1;
+        }
+        let mut rd = bcf::io::Reader::from(&file[..]);
+        let _ = rd.read_header()?;
+        let m = rd.records().filter(|r| r.is_ok()).count();
+        if m != n {
+            return Err(std::io::Error::other(format!("records() yields {m}, record_bufs() {n}")));
+        }
+        Ok(n)
+    });
+    match plain {
+        Err(p) => out.violation(format!("panic:{}", p.sig), format!("whole-file pass panicked: {}", p.message)),
+        Ok(Err(e)) => out.violation(format!("file-pass:{}", io_err_class(&e)), format!("{e:?}")),
+        Ok(Ok(n)) => {
+            if n != recs.len() {
+                out.violation("file-pass:record-count", format!("{n} records read, {} written", recs.len()));
+            }
+            out.count("file_pass_records", n as u64);
+        }
+    }
+    // the same records through the BGZF writer / reader pair
+    let bg = guard::catch(|| -> std::io::Result<(usize, bool)> {
+        let mut w = bcf::io::Writer::new(Vec::new());
+        w.write_header(&hc.header)?;
+        for r in recs {
+            w.write_variant_record(&hc.header, &r.1)?;
+        }
+        w.try_finish()?;
+        let data = w.into_inner().into_inner();
+        let mut plain = bcf::io::Reader::from(&file[..]);
+        let _ = plain.read_header()?;
+        let originals: Vec<vcf::variant::RecordBuf> = plain.record_bufs(&hc.read_header).collect::<std::io::Result<_>>()?;
+        let mut rd = bcf::io::Reader::new(&data[..]);
+        let _ = rd.read_header()?;
+        let mut same = true;
+        let mut n = 0;
+        for (i, r) in rd.record_bufs(&hc.read_header).enumerate() {
+            let r = r?;
+            if i >= originals.len() || !diff_records(&rec_desc_of_buf(&originals[i]), &rec_desc_of_buf(&r), &Tol::BITS).is_empty() {
+                same = false;
+            }
+            n += 1;
+        }
+        Ok((n, same))
+    });
+    match bg {
+        Err(p) => out.violation(format!("panic:{}", p.sig), format!("BGZF file pass panicked: {}", p.message)),
+        Ok(Err(e)) => out.violation(format!("bgzf-file-pass:{}", io_err_class(&e)), format!("{e:?}")),
+        Ok(Ok((n, same))) => {
+            if n != recs.len() || !same {
+                out.violation("bgzf-file-pass:records-differ", format!("{n} of {} records, identical: {same}", recs.len()));
+            }
+            out.count("bgzf_file_pass_records", n as u64);
+        }
+    }
+}
+
+/// Deliberately unrepresentable values (beyond the invalid integers the generator emits itself).
+fn inject_unrepresentable(rng: &mut Rng, r: &mut RecDesc) -> Option<&'static str> {
+    let mut done = None;
+    for (_, v) in r.info.iter_mut() {
+        if let Some(Val::Strs(a)) = v {
+            if let Some(Some(s)) = a.iter_mut().find(|e| e.is_some()) {
+                *s = format!("{}a,b", if rng.bool() { "x" } else { "" });
+                done = Some("info-string-array-element-with-comma");
+                break;
+            }
+        }
+    }
+    if done.is_none() {
+        'outer: for row in r.samples.iter_mut() {
+            for v in row.iter_mut() {
+                match v {
+                    Some(Val::Strs(a)) => {
+                        if let Some(Some(s)) = a.iter_mut().find(|e| e.is_some()) {
+                            *s = "p,q".into();
+                            done = Some("format-string-array-element-with-comma");
+                            break 'outer;
+                        }
+                    }
+                    Some(Val::Str(s)) => {
+                        *s = ".".into();
+                        done = Some("format-string-lone-dot");
+                        break 'outer;
+                    }
+                    _ => {}
+                }
+            }
+        }
+    }
+    done
+}
+
+fn fdef(id: &str, num: Num, ty: Ty) -> FieldDef {
+    FieldDef { id: id.into(), num, ty, desc: format!("{id} field"), idx: None, extra: vec![] }
+}
+
+/// Hand-written corpus: basics and a witness of every known finding.
+fn corpus() -> Vec<(HeaderDesc, Vec<RecDesc>)> {
+    let h = HeaderDesc {
+        fileformat: (4, 3),
+        infos: vec![fdef("DP", Num::Count(1), Ty::Integer), fdef("AF", Num::A, Ty::Float), fdef("iA", Num::Dot, Ty::Integer), fdef("sI", Num::Count(1), Ty::String), fdef("sA", Num::Dot, Ty::String), fdef("DB", Num::Count(0), Ty::Flag)],
+        filters: vec![FilterDef { id: "q10".into(), desc: "Quality below 10".into(), idx: None, extra: vec![] }],
+        formats: vec![fdef("GT", Num::Count(1), Ty::String), fdef("GQ", Num::Count(1), Ty::Integer), fdef("AD", Num::R, Ty::Integer), fdef("fS", Num::Count(1), Ty::String), fdef("fSA", Num::Dot, Ty::String)],
+        alts: vec![],
+        contigs: vec![ContigDef { id: "20".into(), length: Some(62435964), md5: None, url: None, idx: None, extra: vec![] }, ContigDef { id: "21".into(), length: None, md5: None, url: None, idx: None, extra: vec![] }],
+        others: vec![],
+        samples: vec!["NA00001".into(), "NA00002".into()],
+    };
+    let gt = |v: &[(Option<u32>, bool)]| Some(Val::Gt(v.iter().map(|(a, p)| GtAllele { allele: *a, phased: *p }).collect()));
+    let base = RecDesc {
+        chrom: "20".into(),
+        pos: 14370,
+        ids: vec!["rs6054257".into()],
+        reference: "G".into(),
+        alts: vec!["A".into()],
+        qual: Some(29f32.to_bits()),
+        filters: vec!["PASS".into()],
+        info: vec![("DP".into(), Some(Val::Int(14))), ("AF".into(), Some(Val::Floats(vec![Some(0.5f32.to_bits())]))), ("DB".into(), Some(Val::Flag))],
+        format: vec!["GT".into(), "GQ".into()],
+        samples: vec![vec![gt(&[(Some(0), true), (Some(0), true)]), Some(Val::Int(48))], vec![gt(&[(Some(1), true), (Some(0), true)]), Some(Val::Int(48))]],
+    };
+    let mut recs = vec![base.clone()];
+    // width boundaries, scalar and vector, INFO and FORMAT
+    for v in [-121, -120, 127, 128, -32761, -32760, 32767, 32768, i32::MIN + 8, i32::MAX] {
+        let mut r = base.clone();
+        r.info = vec![("DP".into(), Some(Val::Int(v))), ("iA".into(), Some(Val::Ints(vec![Some(0), None, Some(v)])))];
+        r.format = vec!["GT".into(), "GQ".into(), "AD".into()];
+        r.samples = vec![vec![gt(&[(Some(0), false), (Some(1), false)]), Some(Val::Int(v)), Some(Val::Ints(vec![Some(v), Some(1)]))], vec![gt(&[(Some(1), false), (Some(1), false)]), None, Some(Val::Ints(vec![Some(3), None]))]];
+        recs.push(r);
+    }
+    // below the representable range: must be rejected
+    let mut r = base.clone();
+    r.info = vec![("DP".into(), Some(Val::Int(i32::MIN + 7)))];
+    recs.push(r);
+    let mut r = base.clone();
+    r.format = vec!["GT".into(), "AD".into()];
+    r.samples = vec![vec![gt(&[(Some(0), false), (Some(1), false)]), Some(Val::Ints(vec![Some(i32::MIN), Some(1)]))], vec![gt(&[(Some(1), false), (Some(1), false)]), Some(Val::Ints(vec![Some(3), Some(4)]))]];
+    recs.push(r);
+    // known finding witnesses
+    let mut r = base.clone(); // INFO key with a missing value
+    r.info = vec![("DP".into(), None)];
+    recs.push(r);
+    let mut r = base.clone(); // triploid next to diploid
+    r.samples = vec![vec![gt(&[(Some(0), false), (Some(1), false), (Some(1), false)]), Some(Val::Int(1))], vec![gt(&[(Some(0), false), (Some(1), false)]), Some(Val::Int(2))]];
+    recs.push(r);
+    let mut r = base.clone(); // phased missing allele
+    r.samples = vec![vec![gt(&[(Some(0), true), (None, true)]), Some(Val::Int(1))], vec![gt(&[(Some(0), false), (Some(1), false)]), Some(Val::Int(2))]];
+    recs.push(r);
+    let mut r = base.clone(); // vector field missing in every sample
+    r.format = vec!["GT".into(), "AD".into()];
+    r.samples = vec![vec![gt(&[(Some(0), false), (Some(1), false)]), None], vec![gt(&[(Some(1), false), (Some(1), false)]), None]];
+    recs.push(r);
+    let mut r = base.clone(); // one-element integer vector that needs 16 / 32 bits
+    r.info = vec![("iA".into(), Some(Val::Ints(vec![Some(300)])))];
+    recs.push(r.clone());
+    r.info = vec![("iA".into(), Some(Val::Ints(vec![Some(70000)])))];
+    recs.push(r);
+    let mut r = base.clone(); // string vector element holding a comma
+    r.info = vec![("sA".into(), Some(Val::Strs(vec![Some("a,b".into()), Some("c".into())])))];
+    recs.push(r);
+    let mut r = base.clone();
+    r.format = vec!["GT".into(), "fSA".into()];
+    r.samples = vec![vec![gt(&[(Some(0), false), (Some(1), false)]), Some(Val::Strs(vec![Some("p,q".into())]))], vec![gt(&[(Some(1), false), (Some(1), false)]), Some(Val::Strs(vec![Some("r".into())]))]];
+    recs.push(r);
+    let mut r = base.clone(); // a FORMAT string that is a lone dot
+    r.format = vec!["GT".into(), "fS".into()];
+    r.samples = vec![vec![gt(&[(Some(0), false), (Some(1), false)]), Some(Val::Str(".".into()))], vec![gt(&[(Some(1), false), (Some(1), false)]), Some(Val::Str("x".into()))]];
+    recs.push(r);
+    let mut out = vec![(h.clone(), recs)];
+    // explicit IDX: natural (dictionary unchanged) and permuted
+    let mut hn = h.clone();
+    let mut rng = Rng::new(1, 2, 3);
+    genvcf::assign_idx(&mut rng, &mut hn, IdxMode::Natural);
+    out.push((hn, vec![base.clone()]));
+    let mut hp = h.clone();
+    for (i, d) in hp.infos.iter_mut().enumerate() {
+        d.idx = Some(20 - i);
+    }
+    for (i, d) in hp.formats.iter_mut().enumerate() {
+        d.idx = Some(200 + 7 * i);
+    }
+    hp.filters[0].idx = Some(40000);
+    hp.contigs[0].idx = Some(1);
+    hp.contigs[1].idx = Some(0);
+    let mut rq = base.clone();
+    rq.filters = vec!["q10".into()];
+    out.push((hp, vec![base, rq]));
+    out
+}
+
+fn run_case(c: &Case) -> CaseOut {
+    let mut out = CaseOut::new();
+    out.evaluations = 0;
+    let mut fps: BTreeSet<u64> = BTreeSet::new();
+    let mut do_records = |hd: &HeaderDesc, recs: &[RecDesc], out: &mut CaseOut| {
+        out.evaluations += 1;
+        let Some(hc) = check_header(hd, out) else { return };
+        let mut w = bcf::io::Writer::from(Vec::new());
+        if w.write_header(&hc.header).is_err() {
+            return;
+        }
+        let mut accepted = Vec::new();
+        for rd in recs {
+            out.evaluations += 1;
+            if let Some(b) = check_record(hd, &hc, &mut w, rd, out) {
+                accepted.push(b);
+            }
+            for f in features(rd, hd) {
+                fps.insert(fnv1a(format!("{f}|idx:{}", hd.has_explicit_idx()).as_bytes()));
+            }
+        }
+        if !accepted.is_empty() {
+            file_pass(&hc, &accepted, out);
+        }
+    };
+    match c.kind {
+        "corpus" => {
+            for (hd, recs) in corpus() {
+                do_records(&hd, &recs, &mut out);
+            }
+        }
+        "records" => {
+            let mut rng = Rng::new(c.seed, 0xC10, 1);
+            let ho = HeaderOpts { fileformat: c.fileformat, max_samples: if c.seed % 9 == 0 { 30 } else { 6 }, idx: c.idx, model: Model::Bcf, extras: c.seed % 3 == 0, min_contig_len: None, v45_numbers: false };
+            let hd = gen_header(&mut rng, &ho);
+            let ro = RecOpts { model: Model::Bcf, nan: true, invalid_ints: true, rare: 16 };
+            let mut recs: Vec<RecDesc> = Vec::new();
+            for _ in 0..c.n {
+                let mut r = gen_record(&mut rng, &hd, &ro);
+                if rng.chance(1, 40) {
+                    if let Some(k) = inject_unrepresentable(&mut rng, &mut r) {
+                        out.count(&format!("unrepresentable_injected[{k}]"), 1);
+                    }
+                }
+                recs.push(r);
+            }
+            do_records(&hd, &recs, &mut out);
+            if c.seed % 5 == 0 {
+                out.sample = Some(json!({"header_idx": format!("{:?}", c.idx), "first_record": lossy(&to_vcf_line(&recs[0], &hd))}));
+            }
+        }
+        k => panic!("bad case kind {k}"),
+    }
+    out.fps = fps.into_iter().collect();
+    out
+}
+
+fn gen_cases(ctx: &Ctx) -> Vec<Case> {
+    let mut cases = vec![Case { kind: "corpus", seed: 0, n: 0, fileformat: None, idx: IdxMode::None }];
+    let per = ctx.budget("per_case", 200, 250) as usize;
+    let n = ctx.budget("cases", 100, 4000);
+    for i in 0..n {
+        let idx = match i % 10 {
+            0..=4 => IdxMode::None,
+            5 => IdxMode::Natural,
+            6 | 7 => IdxMode::Permuted,
+            _ => IdxMode::Sparse,
+        };
+        cases.push(Case { kind: "records", seed: ctx.seed.wrapping_mul(1_000_003).wrapping_add(i), n: per, fileformat: Some((4, 2 + ((i / 10) % 4) as u32)), idx });
+    }
+    cases
+}
 
 fn main() {
-    eprintln!("c10: not implemented");
-    std::process::exit(2);
+    let ctx = Ctx::from_args();
+    let ctx = vcore::cases::replay_request(&ctx).map(|r| r.1).unwrap_or(ctx);
+    let mut rep = Report::new(
+        "case = one generated header (BCF sub-model; IDX none / natural / permuted / sparse) + a batch of records consistent with it; every \
+         record is written by bcf::io::Writer, decoded by an independent BCF 2.2 reader, read back eagerly and lazily and rendered as VCF; \
+         evaluations = headers + records; distinct = distinct data-free feature tokens (fileformat x explicit-IDX x column shape: Number x \
+         Type x value shape, integer width boundary class, float class, string class, genotype ploidy/phasing/missing, ragged vectors); \
+         non-trivial = all",
+    );
+    rep.assumptions.push("oracles: the generator's description of each value; an independent BCF 2.2 typed-value/record reader and dictionary rule (c10/src/raw.rs) written from the specification".into());
+    rep.assumptions.push("format-inherent tolerances: a vector holding one missing entry == missing value; trailing missing sample values; first-allele phasing before VCF 4.4; reserved NaN patterns are not generated; strings exclude ',' '%' and a lone '.' except in the deliberately unrepresentable class".into());
+    let cases = gen_cases(&ctx);
+    let f = |i: u64| -> CaseOut { run_case(&cases[i as usize]) };
+    run_cases(&ctx, &mut rep, cases.len() as u64, 120.0, &f, &|i| case_json(&cases[i as usize]));
+    if ctx.replay.is_none() {
+        let counters = rep.counters.clone();
+        let get = |k: &str| counters.get(k).copied().unwrap_or(0);
+        let recs = get("records");
+        rep.floor("records_accepted", get("records_accepted"), recs * 7 / 10);
+        rep.floor("records_decoded_independently", get("records_decoded_independently"), recs * 6 / 10);
+        rep.floor("lazy_records_read_through_every_accessor", get("lazy_records_read_through_every_accessor"), recs * 6 / 10);
+        rep.floor("vcf_renderings_compared", get("vcf_renderings_compared"), recs * 5 / 10);
+        rep.floor("headers_idx[explicit]", get("headers_idx[explicit]"), 3);
+        rep.floor("ragged_vectors_checked", get("ragged_vectors_checked"), 50);
+        for w in ["int8", "int16", "int32"] {
+            let k: u64 = counters.iter().filter(|(k, _)| k.starts_with("width_at_boundary[") && k.ends_with(&format!("|{w}]"))).map(|(_, v)| *v).sum();
+            rep.floor(&format!("width_at_boundary[*|{w}]"), k, 30);
+        }
+        for p in 1..=4 {
+            rep.floor(&format!("gt_ploidy[{p}]"), get(&format!("gt_ploidy[{p}]")), 20);
+        }
+        let rej: u64 = counters.iter().filter(|(k, _)| k.starts_with("rejected[")).map(|(_, v)| *v).sum();
+        rep.floor("rejections observed (unrepresentable values)", rej, 10);
+    }
+    rep.finish(&ctx);
 }
